@@ -349,9 +349,11 @@ func (bs *baseServer) Handshake(transportName string, ctx *types.HttpContext) (*
 	socket.Once("close", func(...any) { remove() })
 	// The session may have closed before this listener existed (its peer went
 	// away, its transport failed): that close event is gone, take the session
-	// out of the table now.
+	// out of the table now. The application is only ever handed a session that
+	// is open; this one it never saw, and there is nothing left to announce.
 	if socket.ReadyState() == "closed" {
 		remove()
+		return nil, transport
 	}
 
 	bs.Emit("connection", socket)
